@@ -1016,6 +1016,29 @@ impl Monitors {
                     );
                 }
             }
+            // job state: the first matching rule of docs/jobs/jobs.md ("Job state"), from the task states
+            if !j.status.is_empty() {
+                let any = |f: &dyn Fn(&TaskStateLite) -> bool| j.tasks.iter().any(|(_, s)| f(s));
+                let expected = if any(&|s| matches!(s, TaskStateLite::Running { .. })) {
+                    "Running"
+                } else if any(&|s| matches!(s, TaskStateLite::Waiting)) {
+                    "Waiting"
+                } else if any(&|s| matches!(s, TaskStateLite::Failed { .. })) {
+                    "Failed"
+                } else if any(&|s| matches!(s, TaskStateLite::Aborted)) {
+                    "Aborted"
+                } else if any(&|s| matches!(s, TaskStateLite::Canceled)) {
+                    "Canceled"
+                } else if j.is_open {
+                    "Opened"
+                } else {
+                    "Finished"
+                };
+                self.count(&format!("job.state.{expected}"), 1);
+                if j.status != expected {
+                    viol(out, step, "C13", "B1-job-state", format!("job {} is reported as {} but its task states give {expected} (documented rules)", j.id, j.status));
+                }
+            }
             if c != j.counters || j.n_tasks as usize != j.tasks.len() {
                 viol(
                     out,
